@@ -350,6 +350,19 @@ class ProgramModel:
                 if isinstance(f, ast.FunctionDef) and (is_static(f) or is_classmethod(f))}
         return lambda cn, name: self._pkg_class_methods.get((cn, name))
 
+    def unique_property_finder(self):
+        """name -> FunctionDef of the property of that name when exactly one class of the package (model class or not)
+        defines one: `<anything>.aware_time_span` can then only be that property"""
+        if getattr(self, "_unique_props", None) is None:
+            found = {}
+            for m, (r, t, _) in self.modules.items():
+                for c in [x for x in ast.walk(t) if isinstance(x, ast.ClassDef)]:
+                    for f in c.body:
+                        if isinstance(f, ast.FunctionDef) and is_property(f):
+                            found.setdefault(f.name, []).append(f)
+            self._unique_props = {k: v[0] for k, v in found.items() if len(v) == 1}
+        return lambda name: self._unique_props.get(name)
+
     def any_helper_finder(self, rel=None):
         """name -> FunctionDef for: a function of the module `rel`, a module-level function defined once in the package, or
         (dotted `Class.method`) a static / class method of a module-level class defined once in the package"""
